@@ -188,7 +188,8 @@ Definition chk_static (l : list bool) : Z := if forallb (fun b => b) l then 0 el
 Require Import Hdl21.Spec.C18World Hdl21.Model.C18World.
 
 Inductive wistep := WIS (o : wop) (acc : bool) (obsl : list (option obs)).
-Definition wcase := (list cid * list name * list wop * list wistep * option (nat * export))%type.
+Definition wcase := (list cid * list name * list wop * list wistep * option (nat * option export))%type.
+(* export: None = not requested; Some (k, None) = exporting observed container k failed; Some (k, Some e) = its package *)
 
 (* observation of container ci against the specification world: the namespace denotes the abstract map, every
    object sits in the view of the kind it was SORTED by, and the flags the implementation reports about the live
@@ -269,10 +270,11 @@ Fixpoint wcheck_model (o : wop) (w w' : cworld) (cids : list cid) (obsl : list (
   | _, _ => false
   end.
 
-(* Orphanage (elaboration of a Module): every attribute reports the Module as its parent *)
+(* Orphanage (elaboration of a Module; repaired code, fix C18-5): every attribute reports the Module as its parent and
+   carries the key it is held by as its name *)
 Definition orphan_free (w : cworld) (ci : cid) : bool :=
   forallb (fun e => match w_heap w (v_id (snd e)) with
-                    | Some o => opt_z_eqb (parent_of (fst ci) o) (snd ci)
+                    | Some o => opt_z_eqb (parent_of (fst ci) o) (snd ci) && opt_name_eqb (o_name o) (fst e)
                     | None => false
                     end) (st_ns (w_st w ci)).
 
@@ -290,13 +292,23 @@ Fixpoint walk_wmodel (cids : list cid) (w : cworld) (steps : list wistep) (idx :
       then walk_wmodel cids w' t (idx + 1) else 2 + 10 * (idx + 1)
   end.
 
-(* the export of container ci is judged when every entry over the alphabet is in sync with its live object, both when
-   the container was elaborated (flattening reads the live names then) and at the end (the exporter reads them again) *)
-Definition synced (ci : cid) (a : aworld) (names : list name) : bool :=
-  forallb (fun n => match a_map (w_st a ci) n with Some v => in_syncb (w_heap a) ci n v | None => true end) names.
+(* name and parent of every entry over the alphabet are those of the live object (the exporter reads live names; which
+   view lists a signal is the container's business, so a stale visibility does not matter here) *)
+Definition np_synced (ci : cid) (a : aworld) (names : list name) : bool :=
+  forallb (fun n => match a_map (w_st a ci) n with
+                    | Some v => match w_heap a (v_id v) with
+                                | Some o => opt_z_eqb (parent_of (fst ci) o) (snd ci) && opt_name_eqb (o_name o) n
+                                | None => false
+                                end
+                    | None => true
+                    end) names.
 
+(* ae: the world the container's elaboration saw (the last world if the export itself elaborates it), a: the last world.
+   An export that went through must come from a Module without orphans or renamed attributes (Orphanage, fix C18-5);
+   it is compared with the namespace when the names still are in place at the end. *)
 Definition wexport_ok (ci : cid) (ae a : aworld) (names : list name) (e : export) : bool :=
-  if synced ci ae names && synced ci a names then export_ok (fst ci) (w_st a ci) names e else true.
+  (is_bundle (fst ci) || np_synced ci ae names) &&
+  (if np_synced ci ae names && np_synced ci a names then export_ok (fst ci) (w_st a ci) names e else true).
 
 (* the world the exported package of container ci speaks about: the one its (first accepted) elaboration saw, else the last *)
 Fixpoint world_at_export (ci : cid) (a : aworld) (steps : list wistep) : aworld :=
@@ -313,10 +325,10 @@ Definition chk_world (x : wcase) : Z :=
   if negb (r =? 0) then r else
   let n := Z.of_nat (List.length steps) in
   let ex_ok := match ex with
-               | Some (k, e) => match nth_error cids k with
-                                | Some ci => wexport_ok ci (world_at_export ci a0 steps) a names e
-                                | None => false
-                                end
-               | None => true
+               | Some (k, Some e) => match nth_error cids k with
+                                     | Some ci => wexport_ok ci (world_at_export ci a0 steps) a names e
+                                     | None => false
+                                     end
+               | _ => true
                end in
   if ex_ok then walk_wmodel cids w0 steps 0 else 1 + 10 * (n + 1).
